@@ -147,10 +147,11 @@ RECURSIVE FindX(_, _)
 FindX(x0, want) == LET c == CurveRhs(x0) IN IF ~IsZero(c) /\ IsSquare(c) = want THEN x0 ELSE FindX(Add(x0, One), want)
 RndX(k) == Mod(FromBytesBE(Rnd32(k)), Sub(P, FromNat(100000)))
 
-BlindPool == { Zero, One, Two, HalfN, Sub(N, Two), Sub(N, One), N, Add(N, One), Max256, Pow2(255),
-               FromBytesBE(Rnd32(11)), RndScalar(12) }
-ValPool == { Zero, One, Two, Sub(Pow2(63), One), Pow2(63), Sub(U64Max, One), U64Max, RndU64(13), RndU64(14) }
+BlindPool == { Zero, One, HalfN, Sub(N, Two), Sub(N, One), N, Add(N, One), Max256, FromBytesBE(Rnd32(11)), RndScalar(12) }
+             \cup (IF Thorough THEN { Two, Pow2(255), Pow2(128), RndScalar(15), RndScalar(16) } ELSE { })
+ValPool == { Zero, One, Sub(Pow2(63), One), Pow2(63), U64Max, RndU64(13), RndU64(14) }
             \cup { Pow10(k) : k \in IF Thorough THEN 1..19 ELSE { 1, 9, 18, 19 } }
+            \cup (IF Thorough THEN { Two, Sub(U64Max, One), Pow2(32), RndU64(17), RndU64(18) } ELSE { })
 \* generators: 1 = the static h (pointer), 2.. = 33-byte encodings: h, seed-derived, blinded, parsed (both signs), G, -G
 GenTable == << GenSer(PedGenH), GenSer(PedGenerate(Rnd32(21))[2]), GenSer(PedGenerateBlinded(Rnd32(22), NBytes(RndScalar(23)))[2]),
                << 10 >> \o NBytes(FindX(RndX(24), TRUE)), << 11 >> \o NBytes(FindX(RndX(25), TRUE)), GenSer(G), GenSer(PNeg(G)) >>
@@ -185,7 +186,8 @@ FlowGenPts == << PedGenerate(FlowSeeds[1])[2], PedGenerate(FlowSeeds[2])[2], Ped
 
 Cases ==
        { << "genh" >> }
-  \cup { << "commit", b, v, g >> : b \in BlindPool, v \in ValPool, g \in 1..(Len(GenTable) + 1) }
+  \cup { << "commit", b, v, g >> : b \in BlindPool, v \in ValPool, g \in IF Thorough THEN 1..(Len(GenTable) + 1) ELSE { 1, 3 } }
+  \cup { << "commit", b, v, g >> : b \in { One, Sub(N, One), N, RndScalar(12) }, v \in { One, U64Max, RndU64(13) }, g \in 1..(Len(GenTable) + 1) }
   \cup { << "inf", v, g, d >> : v \in { One, U64Max, RndU64(13) }, g \in { 7, 8 }, d \in { 0, 1 } }
   \cup { << "generate", s >> : s \in 1..NSeeds }
   \cup { << "genblind", s, b >> : s \in { 1, 2, 7, 8 }, b \in 1..Len(GBlindPool) }
@@ -193,7 +195,8 @@ Cases ==
   \cup { << "parse", w, pfx, xc >> : w \in { 8, 10 }, pfx \in 0..255, xc \in 1..Len(XClasses) }
   \cup UNION { { << "bsum", len, np, bad, kind, salt >> : np \in 0..len, bad \in 0..len, kind \in 1..3, salt \in 1..2 } : len \in SumLens }
   \cup UNION { { << "gbsum", n, nin, bad, kind, salt >> : nin \in 0..(n - 1), bad \in 0..(2 * n), kind \in 1..3, salt \in 1..2 } : n \in GbLens }
-  \cup { << "flow", sh, off, mode, ts >> : sh \in 1..NShapes, off \in 0..4, mode \in { 0, 1 }, ts \in 1..3 }
+  \cup { << "flow", sh, off, mode, ts >> : sh \in 1..NShapes, off \in 0..4, mode \in { 0, 1 }, ts \in IF Thorough THEN 1..3 ELSE { 1 } }
+  \cup { << "flow", sh, off, 0, 2 >> : sh \in 1..NShapes, off \in { 0, 1 } }
   \cup { << "tallyraw", k >> : k \in 1..8 }
 \* (descriptors outside the shape of their family are mapped to a canonical member by Expand and de-duplicated)
 
@@ -270,6 +273,9 @@ Big == NN > 50       \* order 199: sample some dimensions
 TinyBlinds == { FromNat(x) : x \in 0..(NN + 2) } \cup { Max256 }
 TinyVals == { FromNat(x) : x \in 0..(NN + 1) } \cup { Pow2(63), U64Max, Sub(U64Max, One) }
 TinyHs == IF Big THEN { 1, 2, 57, NN - 1 } ELSE 1..(NN - 1)
+TinyCommitHs == IF Big THEN { 1, 57 } ELSE 1..(NN - 1)
+TinyFlowVals == IF Big THEN { 0, 1, 2, 57, 100, NN - 1 } ELSE 0..(NN - 1)
+TinySumVals == IF Big THEN { 0, 1, 2, 100, NN - 2, NN - 1, NN, NN + 1, NN + 2 } ELSE 0..(NN + 2)
 TinyPt(c) == PMulG(FromNat(c))
 TinyC(c) == PedSerCommit(TinyPt(c))
 \* a point on the curve outside the subgroup (the tiny curves have cofactors)
@@ -280,16 +286,19 @@ OutsidePt == IF Lt(N, Pow2(16)) THEN FindOutside(One) ELSE Inf
 TinyXs == << Zero, One, Sub(P, One), P, Add(P, One), Max256, FindX(Two, FALSE), OutsidePt[1] >>
 TallyPts == IF Big THEN { 1, 2, 99, 100, 197, 198 } ELSE 1..(NN - 1)
 Lists2 == { << >> } \cup { << a >> : a \in TallyPts } \cup { << a, b >> : a \in TallyPts, b \in TallyPts }
-Lists2s == { l \in Lists2 : Len(l) < 2 \/ l[1] <= l[2] }      \* negative side: unordered pairs
+Lists2s == { l \in Lists2 : Len(l) < 2 \/ l[1] <= l[2] }      \* unordered pairs
+TinyPrefixes == IF Thorough THEN 0..255 ELSE { 0, 1, 2, 3, 4, 7, 8, 9, 10, 11, 12, 136, 137, 138, 139, 254, 255 }
 TinyCases ==
-       { << "tcommit", b, v, h >> : b \in TinyBlinds, v \in TinyVals, h \in TinyHs }
-  \cup { << "ttally", ps, ns >> : ps \in Lists2, ns \in Lists2s }
+       { << "tcommit", b, v, h >> : b \in TinyBlinds, v \in TinyVals, h \in TinyCommitHs }
+  \cup { << "ttally", ps, ns >> : ps \in Lists2s, ns \in Lists2s }
+  \cup { << "ttally", ps, ns >> : ps \in Lists2 \ Lists2s, ns \in { l \in Lists2s : Len(l) < 2 } }
   \cup { << "ttally3", a, b, c, d >> : a \in TallyPts, b \in TallyPts, c \in { 1, 2, NN - 1 }, d \in { 0, 1 } }
   \cup { << "ttallyout", k >> : k \in 1..4 }
-  \cup UNION { { << "tflow", h1, h2, v1, v2, b1, 0 >> : h2 \in { h1, (h1 * 5) % NN }, v1 \in 0..(NN - 1), v2 \in 0..(NN - 1), b1 \in { 0, 1, NN - 1 } } : h1 \in TinyHs }
-  \cup { << "tflow", h1, (h1 * 5) % NN, v1, v2, b1, 1 >> : h1 \in TinyHs, v1 \in 0..(NN - 1), v2 \in 0..(NN - 1), b1 \in { 0, 4 } }
-  \cup { << "tparse", w, pfx, x >> : w \in { 8, 10 }, pfx \in 0..255, x \in 1..(Len(TinyXs) + (IF Big THEN 6 ELSE (NN - 1) \div 2)) }
-  \cup { << "tbsum", l >> : l \in { << >> } \cup { << a >> : a \in 0..(NN + 2) } \cup { << a, b >> : a \in 0..(NN + 2), b \in 0..(NN + 2) }
+  \cup { << "tflow", h1, h1, v1, v2, b1, 0 >> : h1 \in TinyHs, v1 \in TinyFlowVals, v2 \in TinyFlowVals, b1 \in { 0, 5 } }
+  \cup { << "tflow", h1, (h1 * 5) % NN, v1, v2, 5, 0 >> : h1 \in TinyHs, v1 \in TinyFlowVals, v2 \in TinyFlowVals }
+  \cup { << "tflow", h1, (h1 * 5) % NN, v1, v2, b1, 1 >> : h1 \in TinyHs, v1 \in TinyFlowVals, v2 \in TinyFlowVals, b1 \in { 4 } }
+  \cup { << "tparse", w, pfx, x >> : w \in { 8, 10 }, pfx \in TinyPrefixes, x \in 1..(Len(TinyXs) + (IF Big THEN 6 ELSE (NN - 1) \div 2)) }
+  \cup { << "tbsum", l >> : l \in { << >> } \cup { << a >> : a \in TinySumVals } \cup { << a, b >> : a \in TinySumVals, b \in TinySumVals }
                                  \cup { << a, b, c >> : a \in { 0, 1, NN - 1, NN }, b \in { 1, NN - 1, NN + 1 }, c \in { 0, 2, NN - 1 } } }
   \cup { << "tgbsum", v, r, rp >> : v \in { 0, 1, 5, NN - 1, NN }, r \in { 0, 1, 6, NN - 1, NN }, rp \in { 0, 1, 3, NN - 1, NN + 1 } }
   \cup { << "tgbsum2", v1, r1, v2, r2, rp, nin >> : v1 \in { 1, 5 }, r1 \in { 0, 6, NN }, v2 \in { 0, 1, NN - 1 }, r2 \in { 1, NN - 1 },
@@ -314,8 +323,10 @@ ExpandTiny(c) ==
          IF c[7] = 0
          THEN [ e |-> "PedFlow", in |-> [ gens |-> << TinyGen(c[2]), TinyGen(c[3]) >>, gi |-> << 0, 1 >>, values |-> << TV(c[4]), TV(c[5]) >>,
                                            blinds |-> << TB(c[6]) >>, npos |-> 1, mode |-> 0 ] ]
-         ELSE [ e |-> "PedFlow", in |-> [ gens |-> << GenSer(PAdd(TinyPt(c[2]), TinyPt(3))), GenSer(PAdd(TinyPt(c[3]), TinyPt(5))) >>, gi |-> << 0, 1 >>,
-                                           values |-> << TV(c[4]), TV(c[5]) >>, blinds |-> << TB(c[6]), TB(7) >>, gblinds |-> << TB(3), TB(5) >>,
+         ELSE LET r1 == IF (c[2] + 3) % NN = 0 THEN 4 ELSE 3     \* generator blinds (the blinded generator must not be infinity)
+                  r2 == IF (c[3] + 5) % NN = 0 THEN 6 ELSE 5 IN
+              [ e |-> "PedFlow", in |-> [ gens |-> << TinyGen((c[2] + r1) % NN), TinyGen((c[3] + r2) % NN) >>, gi |-> << 0, 1 >>,
+                                           values |-> << TV(c[4]), TV(c[5]) >>, blinds |-> << TB(c[6]), TB(2) >>, gblinds |-> << TB(r1), TB(r2) >>,
                                            npos |-> 1, mode |-> 1 ] ]
     [] c[1] = "tparse" ->
          LET x == IF c[4] <= Len(TinyXs) THEN TinyXs[c[4]] ELSE TinyPt(c[4] - Len(TinyXs))[1] IN
